@@ -66,4 +66,11 @@ PROPS["C19"] = {
     "assumptions": ["graphs up to ~60 nodes are outside the bound; all graphs up to the stated n are covered instead"],
     "parts": [{"name": "decomp", "src": "c19_decomp.cpp", "quick": T(100, 30, [], 100), "thorough": T(1500, 60, [], 100)}],
 }
+PROPS["C13"] = {
+    "engine": "mcx-bfs",
+    "rule": "start scenes: 3 nodes (10x10) on distinct cells of a 4x4 grid (spacing 20) with one edge, straight (not crossing the third node) or bent tightly round a corner of the third node; 4 nodes on a 3x3 grid with two edges. Operations: (axis, node, target coordinate on the grid) with weight 10000, each followed by the TopologyConstraints::solve() loop exactly as ColaTopologyAddon::moveTo runs it. All operation sequences to the depth bound (stateless); oracle after every step. Non-trivial = a bend exists at some point of the sequence.",
+    "bounds": {"quick": "depth 2 (3 nodes), depth 1 (4 nodes)", "thorough": "depth 3 (3 nodes), depth 2 (4 nodes)"},
+    "assumptions": ["side invariant is checked as: the swept angle of an edge path round a non-end node changes by less than 1.5*pi in one step", "resize() and force-driven steps are outside the alphabet; steps are the moveTo form"],
+    "parts": [{"name": "topology", "src": "c13_topology.cpp", "quick": T(100, 20, [], 100), "thorough": T(1500, 20, [], 100)}],
+}
 NOT_APPLICABLE = {}
